@@ -403,5 +403,95 @@ def job_table_z(job, pmax=45):
             job.prove(f"table[{dry}]/reach[path{k}]", pr.pc, expect="sat")
 
 
+def replay_hy_dtype(model):
+    """Real z_factor_hallyarbrough at a whole-number reduced temperature passed as a Python int, a numpy integer and a float."""
+    import numpy as np
+    from bluebonnet.fluids import gas
+    m = model_floats(model, ["p", "Tr"], default=dict(p=5.0, Tr=2.0))
+    for Tr in sorted({2, 3, int(min(3, max(2, round(m["Tr"]))))}):
+        for p in (m["p"], 5.0, 0.5, 12.0):
+            want = float(gas.z_factor_hallyarbrough(p, float(Tr)))
+            for kind, val in (("int", int(Tr)), ("numpy int64", np.int64(Tr))):
+                try:
+                    with np.errstate(all="ignore"):
+                        got = float(gas.z_factor_hallyarbrough(p, val))
+                except Exception as ex:
+                    return True, {"what": f"z_factor_hallyarbrough({p!r}, {kind} {Tr}) raises {ex!r}; with the float {float(Tr)!r} it returns {want!r}", "inputs": m}
+                if not abs(got - want) <= 1e-9 * abs(want):
+                    return True, {"what": f"z_factor_hallyarbrough({p!r}, {kind} {Tr}) = {got!r} but with the float {float(Tr)!r} it is {want!r}: "
+                                          f"the result depends on the temperature's dtype", "inputs": m}
+    return False, {"what": "same Z for int, numpy integer and float temperatures", "inputs": m}
+
+
+def replay_hy_low_pressure(model):
+    """Real z_factor_hallyarbrough at low reduced pressures, where every Z-factor correlation is within a few percent of 1
+    (the property: agreement with DAK, which tends to 1): a returned starting guess shows as Z far from 1."""
+    from bluebonnet.fluids import gas
+    for Tr in (1.5, 2.0, 3.0):
+        for p in (0.01, 0.02, 0.05):
+            z = float(gas.z_factor_hallyarbrough(p, Tr))
+            if not abs(z - 1.0) <= 0.1:
+                return True, {"what": f"z_factor_hallyarbrough(p_r={p!r}, T_r={Tr!r}) = {z!r}: not within 10 % of 1 at a pressure where Z is 1 to within a percent", "inputs": {}}
+    return False, {"what": "Z within 10 % of 1 at p_r <= 0.05", "inputs": {}}
+
+
+def job_hy_entry(job):
+    """The one part of the declined Hall-Yarbrough clause within reach: the routine run symbolically up to its first
+    data-dependent loop test (one Newton update from the constant starting guess; everything after that test is outside the
+    bound).  The state captured there - reciprocal temperature, first residual, first iterate - must be a function of the
+    temperature's *value*: the same terms for a whole-number temperature passed as an integer and as a real, and
+    t * T_r == 1 (an integer-preserving reciprocal gives t = 0 and Z = 0)."""
+    from ..sx import sym as S
+    mod = load_sym("bluebonnet.fluids.gas")
+    job.encoded(mod, "z_factor_hallyarbrough")
+    job.bound(hall_yarbrough="first loop test only (one Newton update from y0); termination and agreement with DAK are NOT decided",
+              hall_yarbrough_box="p_r in [0.1, 30]; T_r in [1.05, 3] real, {2, 3} integer")
+    captured = {}
+    for kind in ("real", "integer", "integer-as-real"):
+        vs, dom = box(None, _integer=(() if kind == "real" else ("Tr",)), p=("0.1", 30), Tr=(("1.05", 3) if kind == "real" else (2, 3)))
+        Tr_arg = vs["Tr"] * K("1.0") if kind == "integer-as-real" else vs["Tr"]
+        got = []
+
+        def run():
+            S.Context.current.max_decisions = 0
+            try:
+                return mod.z_factor_hallyarbrough(vs["p"], Tr_arg)
+            except S.Unsupported as e:
+                if "too many symbolic decisions" not in str(e):
+                    raise
+                tb = e.__traceback__
+                while tb is not None:
+                    if tb.tb_frame.f_code.co_name == "z_factor_hallyarbrough":
+                        got.append(dict(tb.tb_frame.f_locals))
+                        break
+                    tb = tb.tb_next
+                raise S.PathAbort()
+        res = paths(job, run, dom, max_paths=8)
+        if res or len(got) != 1 or "t" not in got[0]:
+            raise S.Unsupported(f"Hall-Yarbrough[{kind}]: the routine no longer reaches a first data-dependent test with a local `t` "
+                                f"({len(res)} complete paths, {len(got)} captured states)")
+        captured[kind] = (vs, dom, got[0])
+        job.prove(f"hall-yarbrough[{kind} T_r]/t * T_r == 1 at the first loop test", dom + [T.b_not(T.b_eq0(P(lift(got[0]["t"]) * vs["Tr"] - 1)))],
+                  bound="first loop test", replay=(replay_hy_dtype, {}))
+        job.prove(f"hall-yarbrough[{kind} T_r]/reach", dom, expect="sat")
+    y_real = captured["real"][2].get("y")
+    untouched = not isinstance(y_real, S.Sym)
+    job.record("hall-yarbrough/the first data-dependent exit test is taken after a Newton update (the iterate depends on the inputs there)",
+               "sat" if untouched else "unsat", 0.0, note="structure of the captured state")
+    if untouched:
+        job._violation("hall-yarbrough/the first exit test is evaluated on the constant starting guess", {},
+                       {"what": f"at the first data-dependent loop test y is still the constant {y_real!r}", "replayer": "replay_hy_low_pressure"}, None)
+    vi, di, gi = captured["integer"]
+    vr, dr, gr = captured["integer-as-real"]
+    names = sorted(k for k in gr if k in gi and isinstance(gr[k], S.Sym) or isinstance(gi.get(k), S.Sym))
+    same = all(repr(P(lift(gi[k]))) == repr(P(lift(gr[k]))) for k in names)
+    job.record(f"hall-yarbrough/state at the first loop test ({', '.join(names)}) is the same term for an integer and a real whole-number T_r",
+               "unsat" if same else "sat", 0.0, note="canonical-term identity")
+    if not same:
+        job._violation("hall-yarbrough/state at the first loop test depends on the temperature's dtype", {},
+                       {"what": "the captured terms differ between an integer and a real whole-number T_r", "replayer": "replay_hy_dtype"}, None)
+
+
 def jobs(tier):
-    return [("default-table-z-column", job_table_z), ("dak", job_dak), ("history", job_history), ("history-0d-temperatures", lambda j: job_history(j, True))]
+    return [("default-table-z-column", job_table_z), ("dak", job_dak), ("history", job_history), ("history-0d-temperatures", lambda j: job_history(j, True)),
+            ("hall-yarbrough-entry-state", job_hy_entry)]
